@@ -790,6 +790,16 @@ fn c15_cfgs(tier: Tier) -> Vec<(ScanCfg, Vec<String>)> {
             v.push((ScanCfg { terms: vec![t("'x'", "x")], modes: vec![m], lalr: false, raw_comment_literals: raw, body: None }, alpha.into_iter().collect()));
         }
     }
+    // several line comment styles in one state (both declaration orders)
+    for raw in [true, false] {
+        for pair in [["//", "#"], ["#", "//"], [";", "--"], ["--", ";"]] {
+            let mut m = ModeSpec::plain("INITIAL");
+            m.line_comments = pair.iter().map(|s| s.to_string()).collect();
+            let mut alpha: BTreeSet<String> = pair.iter().flat_map(|l| l.chars()).map(|c| c.to_string()).collect();
+            alpha.extend(["x", "\n", "\r"].iter().map(|s| s.to_string()));
+            v.push((ScanCfg { terms: vec![t("'x'", "x")], modes: vec![m], lalr: false, raw_comment_literals: raw, body: None }, alpha.into_iter().collect()));
+        }
+    }
     // two block comment styles and a line comment together
     let mut m = ModeSpec::plain("INITIAL");
     m.block_comments = vec![("/*".into(), "*/".into()), ("(*".into(), "*)".into())];
@@ -1227,7 +1237,7 @@ pub fn run(id: &str, tier: Tier, replay: Option<&str>) -> i32 {
             let cases = c15_cfgs(tier).into_iter().map(|(c, a)| Case { cfg: c, alphabet: a, n, text: None }).collect();
             (
                 cases,
-                format!("13 block-comment delimiter pairs covering every border structure of 1-3 character end delimiters (*/ *) }} -- --> aa aba aab abb **/ a ]] ##) and 4 line-comment markers, each written as raw and as escaped string literal, plus a mixed configuration; x every text of length <= {n} over the delimiter characters plus x (and line breaks for line comments); the delivered tokens must equal the reference in which a block comment runs from its start delimiter to the first following end delimiter and a line comment to the end of its line including the line break (lone CR reported as its own class). Non-trivial = configurations with at least one comment in the reference."),
+                format!("13 block-comment delimiter pairs covering every border structure of 1-3 character end delimiters (*/ *) }} -- --> aa aba aab abb **/ a ]] ##) and 4 line-comment markers, each written as raw and as escaped string literal, pairs of line-comment styles in both declaration orders, plus a mixed configuration; x every text of length <= {n} over the delimiter characters plus x (and line breaks for line comments); the delivered tokens must equal the reference in which a block comment runs from its start delimiter to the first following end delimiter and a line comment to the end of its line including the line break (lone CR reported as its own class). Non-trivial = configurations with at least one comment in the reference."),
                 "exploration",
                 json!({}),
             )
